@@ -273,6 +273,36 @@ func registryFromHistory(sc *scen.Scenario, ops map[string]*opObs, upto int) *mo
 	return reg
 }
 
+// WellFormed: the sweep is judged against the observed debug mode and logger levels, so the
+// observation ops (get_debug_mode, snap) must precede the first sweep op and nothing that
+// changes the state may follow them.
+func (p *C01) WellFormed(sc *scen.Scenario) bool {
+	seenDbg, seenSnap := false, false
+	for i := range sc.Setup {
+		switch op := &sc.Setup[i]; op.Op {
+		case "get_debug_mode":
+			if seenSnap {
+				return false
+			}
+			seenDbg = true
+		case "snap":
+			if !seenDbg {
+				return false
+			}
+			seenSnap = true
+		case "log", "enabled":
+			if !seenSnap {
+				return false
+			}
+		default:
+			if seenDbg {
+				return false // a state-changing op after the observation
+			}
+		}
+	}
+	return true
+}
+
 func (p *C01) Check(sc *scen.Scenario, run *orch.Run, env *orch.Env) []orch.Violation {
 	var out []orch.Violation
 	if worldDied(run) {
